@@ -608,4 +608,311 @@ theorem yDec32_congr (s s' : Bytes) (i min v n : Nat) (h : yDec32 s i min = some
   rw [← yDec32_tail_congr s s' (chars - 1) (i + 1) bits _ (fun x h1 h2 => hag x (by omega) (by omega)), hv0]
   simp [hv]
 
+
+/-! ### yescrypt family: locality of the parameter parser, `strrchr` -/
+
+
+theorem yAtoi_zero : yAtoi 0 = 64 := by decide
+
+theorem yAtoi_valid_ne_zero {c : UInt8} (h : ¬ yAtoi c > 63) : c ≠ 0 := by
+  intro h0; subst h0; rw [yAtoi_zero] at h; omega
+
+theorem yDecFixed30_congr (s s' : Bytes) (i : Nat) (h : ∀ k, k < 5 → cat s' (i + k) = cat s (i + k)) :
+    yDecFixed30 s' i = yDecFixed30 s i := by
+  unfold yDecFixed30
+  have : (List.range 5).map (fun k => yAtoi (cat s' (i + k))) = (List.range 5).map (fun k => yAtoi (cat s (i + k))) := by
+    apply List.map_congr_left
+    intro k hk
+    rw [h k (by simpa using hk)]
+  rw [this]
+
+/-- a successful fixed-width decode read five valid characters; in particular the last one exists -/
+theorem yDecFixed30_last {s : Bytes} {i v : Nat} (h : yDecFixed30 s i = some v) : i + 4 < s.length := by
+  unfold yDecFixed30 at h
+  simp only [] at h
+  split at h; · cases h
+  rename_i hany
+  simp only [List.any_eq_true, not_exists, not_and, List.mem_map, List.mem_range] at hany
+  apply cat_ne_zero_lt
+  apply yAtoi_valid_ne_zero
+  have := hany (yAtoi (cat s (i + 4))) ⟨4, by omega, rfl⟩
+  simpa using this
+
+/-- `$7$` parameters: fixed positions 3..13 -/
+theorem yParams_local7 {s : Bytes} {P : YParams} {pl : Nat} (h : yParams s = some (P, pl)) (h7 : cat s 1 = 55) :
+    pl = 14 ∧ pl ≤ s.length ∧ ∀ s' : Bytes, (∀ i, i < pl → cat s' i = cat s i) → yParams s' = some (P, pl) := by
+  unfold yParams at h
+  simp only [] at h
+  split at h; · cases h
+  rename_i hpre
+  try rw [if_pos h7] at h
+  try simp only [] at h
+  split at h; · cases h
+  rename_i hnlog
+  split at h
+  · rename_i r p hr hp
+    simp only [Option.some.injEq, Prod.mk.injEq] at h
+    obtain ⟨hP, hpl⟩ := h
+    subst hpl
+    have hlen := yDecFixed30_last hp
+    refine ⟨rfl, by omega, fun s' hag => ?_⟩
+    unfold yParams
+    dsimp only
+    have e0 := hag 0 (by omega); have e1 := hag 1 (by omega); have e2 := hag 2 (by omega); have e3 := hag 3 (by omega)
+    have d4 := yDecFixed30_congr s s' 4 (fun k hk => hag (4 + k) (by omega))
+    have d9 := yDecFixed30_congr s s' 9 (fun k hk => hag (9 + k) (by omega))
+    simp only [e0, e1, e2, e3, d4, d9, hr, hp, if_neg hpre, if_pos h7, if_neg hnlog, hP]
+  · cases h
+
+
+theorem strrchr_go_notin (c : UInt8) : ∀ (l : Bytes) (i : Nat) (best : Option Nat), c ∉ l → strrchr.go c l i best = best := by
+  intro l
+  induction l with
+  | nil => intro i best _; rfl
+  | cons x xs ih =>
+    intro i best h
+    simp only [List.mem_cons, not_or] at h
+    simp only [strrchr.go]
+    have : (x == c) = false := by simpa using fun e => h.1 e.symm
+    rw [this]; exact ih _ _ h.2
+
+theorem strrchr_go_append (c : UInt8) : ∀ (a b : Bytes) (i : Nat) (best : Option Nat), c ∉ b →
+    strrchr.go c (a ++ c :: b) i best = some (i + a.length) := by
+  intro a
+  induction a with
+  | nil => intro b i best h; simp [strrchr.go, strrchr_go_notin c b _ _ h]
+  | cons x xs ih =>
+    intro b i best h
+    simp only [List.cons_append, strrchr.go, List.length_cons]
+    rw [ih b (i + 1) _ h]; congr 1; omega
+
+/-- the last occurrence: `a ++ c :: b` with no `c` in `b` -/
+theorem strrchr_append_stop (a b : Bytes) (c : UInt8) (h : c ∉ b) : strrchr (a ++ c :: b) c = some a.length := by
+  unfold strrchr; rw [strrchr_go_append c a b 0 none h]; simp
+
+theorem strrchr_go_lt (c : UInt8) : ∀ (l : Bytes) (i : Nat) (best : Option Nat) (k : Nat),
+    strrchr.go c l i best = some k → best = some k ∨ (i ≤ k ∧ k < i + l.length) := by
+  intro l
+  induction l with
+  | nil => intro i best k h; left; simpa [strrchr.go] using h
+  | cons x xs ih =>
+    intro i best k h
+    simp only [strrchr.go] at h
+    rcases ih _ _ _ h with h1 | h1
+    · split at h1
+      · right; simp at h1; simp; omega
+      · left; exact h1
+    · right; simp; omega
+
+theorem strrchr_lt {l : Bytes} {c : UInt8} {k : Nat} (h : strrchr l c = some k) : k < l.length := by
+  unfold strrchr at h
+  rcases strrchr_go_lt c l 0 none k h with h1 | h1
+  · cases h1
+  · omega
+
+
+
+theorem yOpt_local {s : Bytes} {cond : Bool} {i min dflt v j : Nat} (h : yOpt s cond i min dflt = some (v, j)) :
+    i ≤ j ∧ ∀ s' : Bytes, (∀ x, i ≤ x → x < j → cat s x = cat s' x) → yOpt s' cond i min dflt = some (v, j) := by
+  unfold yOpt at h ⊢
+  cases cond with
+  | false =>
+    simp only [Bool.false_eq_true, if_false, Option.some.injEq, Prod.mk.injEq] at h
+    obtain ⟨rfl, rfl⟩ := h
+    exact ⟨Nat.le_refl _, fun s' _ => by simp⟩
+  | true =>
+    simp only [if_true, Option.map_eq_some_iff] at h
+    obtain ⟨⟨v0, n0⟩, hd, he⟩ := h
+    simp only [Prod.mk.injEq] at he
+    obtain ⟨rfl, rfl⟩ := he
+    refine ⟨by omega, fun s' hag => ?_⟩
+    simp only [if_true]
+    rw [yDec32_congr s s' i min v0 n0 hd hag]
+    simp
+
+/-- `$y$` parameters: everything is read below the returned prefix length -/
+theorem yParams_localY {s : Bytes} {P : YParams} {pl : Nat} (h : yParams s = some (P, pl)) (h7 : cat s 1 ≠ 55) :
+    3 < pl ∧ pl ≤ s.length ∧ ∀ s' : Bytes, (∀ i, i < pl → cat s' i = cat s i) → yParams s' = some (P, pl) := by
+  unfold yParams at h
+  dsimp only at h
+  split at h; · cases h
+  rename_i hpre
+  try rw [if_neg h7] at h
+  split at h; · cases h
+  rename_i flavor n1 hf
+  split at h; · cases h
+  rename_i flags hflags
+  split at h; · cases h
+  rename_i nlog n2 hn
+  split at h; · cases h
+  rename_i hnl
+  split at h; · cases h
+  rename_i r n3 hr
+  split at h
+  · -- short form: `$y$<flavor><N><r>$`
+    rename_i h36
+    simp only [Option.some.injEq, Prod.mk.injEq] at h
+    obtain ⟨hP, hpl⟩ := h
+    have hlen : 3 + n1 + n2 + n3 < s.length := cat_ne_zero_lt (by rw [h36]; decide)
+    refine ⟨by omega, by omega, fun s' hag => ?_⟩
+    have ag : ∀ x, x < pl → cat s x = cat s' x := fun x hx => (hag x hx).symm
+    unfold yParams
+    dsimp only
+    have e0 := hag 0 (by omega); have e1 := hag 1 (by omega); have e2 := hag 2 (by omega)
+    have f1 := yDec32_congr s s' 3 0 flavor n1 hf (fun x _ h2 => ag x (by omega))
+    have f2 := yDec32_congr s s' (3 + n1) 1 nlog n2 hn (fun x _ h2 => ag x (by omega))
+    have f3 := yDec32_congr s s' (3 + n1 + n2) 1 r n3 hr (fun x _ h2 => ag x (by omega))
+    have e36 := hag (3 + n1 + n2 + n3) (by omega)
+    simp only [e0, e1, e2, if_neg hpre, if_neg h7, f1, hflags, f2, if_neg hnl, f3, e36, h36, if_true, hP, hpl]
+  · -- long form with the optional fields
+    rename_i hn36
+    split at h; · cases h
+    rename_i hv n4 hh
+    split at h; · cases h
+    rename_i pp i5 hp5
+    split at h; · cases h
+    rename_i tt i6 hp6
+    split at h; · cases h
+    rename_i gg i7 hp7
+    split at h; · cases h
+    rename_i nrom i8 hp8
+    split at h; · cases h
+    rename_i hnr
+    split at h; · cases h
+    rename_i h36
+    simp only [Option.some.injEq, Prod.mk.injEq] at h
+    obtain ⟨hP, hpl⟩ := h
+    simp only [ne_eq, Decidable.not_not] at h36
+    obtain ⟨b5, l5⟩ := yOpt_local hp5
+    obtain ⟨b6, l6⟩ := yOpt_local hp6
+    obtain ⟨b7, l7⟩ := yOpt_local hp7
+    obtain ⟨b8, l8⟩ := yOpt_local hp8
+    have hlen : i8 < s.length := cat_ne_zero_lt (by rw [h36]; decide)
+    refine ⟨by omega, by omega, fun s' hag => ?_⟩
+    have ag : ∀ x, x < pl → cat s x = cat s' x := fun x hx => (hag x hx).symm
+    unfold yParams
+    dsimp only
+    have e0 := hag 0 (by omega); have e1 := hag 1 (by omega); have e2 := hag 2 (by omega)
+    have f1 := yDec32_congr s s' 3 0 flavor n1 hf (fun x _ h2 => ag x (by omega))
+    have f2 := yDec32_congr s s' (3 + n1) 1 nlog n2 hn (fun x _ h2 => ag x (by omega))
+    have f3 := yDec32_congr s s' (3 + n1 + n2) 1 r n3 hr (fun x _ h2 => ag x (by omega))
+    have f4 := yDec32_congr s s' (3 + n1 + n2 + n3) 1 hv n4 hh (fun x _ h2 => ag x (by omega))
+    have e36a := hag (3 + n1 + n2 + n3) (by omega)
+    have g5 := l5 s' (fun x _ h2 => ag x (by omega))
+    have g6 := l6 s' (fun x _ h2 => ag x (by omega))
+    have g7 := l7 s' (fun x _ h2 => ag x (by omega))
+    have g8 := l8 s' (fun x _ h2 => ag x (by omega))
+    have e36 := hag i8 (by omega)
+    simp only [e0, e1, e2, if_neg hpre, if_neg h7, f1, hflags, f2, if_neg hnl, f3, e36a, if_neg hn36, f4, g5, g6, g7, g8,
+      if_neg hnr, e36, h36, ne_eq, not_true_eq_false, if_false, hP, hpl]
+
+theorem a64_ne_36 : ∀ k : Fin 64, a64 k.val ≠ 36 := by decide
+theorem a64_ne_36' (n : Nat) : a64 n ≠ 36 := by
+  have := a64_ne_36 ⟨n % 64, Nat.mod_lt _ (by decide)⟩; simpa [a64] using this
+
+theorem enc64Group_no36 (g : Bytes) : (36 : UInt8) ∉ enc64Group g := by
+  intro h
+  simp only [enc64Group, List.mem_map] at h
+  obtain ⟨i, _, hi⟩ := h
+  exact a64_ne_36' _ hi
+
+theorem encode64_no36 : ∀ d : Bytes, (36 : UInt8) ∉ encode64 d
+  | [] => by simp [encode64]
+  | [_] => by simp only [encode64]; exact enc64Group_no36 _
+  | [_, _] => by simp only [encode64]; exact enc64Group_no36 _
+  | _ :: _ :: _ :: rest => by
+    have := encode64_no36 rest
+    simp only [encode64, List.mem_append, not_or]
+    exact ⟨enc64Group_no36 _, this⟩
+
+/-- `yFinish` once the length of the salt string is known -/
+def yFin (s : Bytes) (n : Nat) (P : YParams) (pl sl : Nat) : Option YParsed :=
+  match (if cat s 1 = 55 then some ((s.drop pl).take sl) else yDecode64 ((s.drop pl).take sl) 64) with
+  | none => none
+  | some salt =>
+    if pl + sl + 1 + Gen.YESCRYPT_HASH_LEN + 1 > n then none else
+    some { params := P, prefixlen := pl, saltstrlen := sl, salt := salt }
+
+theorem yFinish_eq (s : Bytes) (n : Nat) (P : YParams) (pl : Nat) :
+    yFinish s n P pl = yFin s n P pl (match strrchr (s.drop pl) 36 with | some k => k | none => (s.drop pl).length) := rfl
+
+/-- the salt part re-read from `take (pl + sl) s ++ "$" ++ text` (text free of `$`) -/
+theorem yFinish_refeed {s : Bytes} {n pl : Nat} {P : YParams} {Q : YParsed} (h : yFinish s n P pl = some Q) (hpl : 1 < pl ∧ pl ≤ s.length)
+    (tail : Bytes) (ht : (36 : UInt8) ∉ tail) :
+    Q.prefixlen = pl ∧ pl + Q.saltstrlen ≤ s.length ∧ yFinish (s.take (pl + Q.saltstrlen) ++ 36 :: tail) n P pl = some Q := by
+  rw [yFinish_eq] at h
+  generalize hsl : (match strrchr (s.drop pl) 36 with | some k => k | none => (s.drop pl).length) = sl at h
+  have hsle : sl ≤ (s.drop pl).length := by
+    rw [← hsl]; split
+    · rename_i k hk; exact Nat.le_of_lt (strrchr_lt hk)
+    · exact Nat.le_refl _
+  unfold yFin at h
+  split at h; · cases h
+  rename_i salt hsalt
+  split at h; · cases h
+  rename_i hneed
+  simp only [Option.some.injEq] at h
+  subst h
+  have hlen : pl + sl ≤ s.length := by simp at hsle; omega
+  refine ⟨rfl, hlen, ?_⟩
+  rw [yFinish_eq]
+  dsimp only
+  have hdrop : (s.take (pl + sl) ++ 36 :: tail).drop pl = (s.drop pl).take sl ++ 36 :: tail := by
+    rw [List.drop_append_of_le_length (by simp; omega), List.drop_take]; congr 2; omega
+  have hxl : ((s.drop pl).take sl).length = sl := by simp; simp at hsle; omega
+  rw [hdrop, strrchr_append_stop _ _ 36 ht, hxl]
+  unfold yFin
+  have h1 : cat (s.take (pl + sl) ++ 36 :: tail) 1 = cat s 1 := cat_take_append s _ (pl + sl) 1 (by omega) hlen
+  have htk : ((s.drop pl).take sl ++ 36 :: tail).take sl = (s.drop pl).take sl := by
+    exact List.take_left' hxl
+  rw [hdrop, htk, h1, hsalt]
+  simp only [hneed, if_false]
+
+theorem yParams_local {s : Bytes} {P : YParams} {pl : Nat} (h : yParams s = some (P, pl)) :
+    3 < pl ∧ pl ≤ s.length ∧ ∀ s' : Bytes, (∀ i, i < pl → cat s' i = cat s i) → yParams s' = some (P, pl) := by
+  by_cases h7 : cat s 1 = 55
+  · obtain ⟨a, b, c⟩ := yParams_local7 h h7
+    exact ⟨by omega, b, c⟩
+  · exact yParams_localY h h7
+
+/-- `yescrypt_r`: the result is `take (prefixlen + saltstrlen) setting ++ "$" ++ digest`, and hashing the same phrase with
+    that part followed by `$` and ANY text free of `$` gives the same result -/
+theorem yescryptR_refeed {D : Digests} {p s out : Bytes} {n : Nat} (h : yescryptR D p s n = some out) :
+    ∃ k dig, k ≤ s.length ∧ 3 < k ∧ out = s.take k ++ 36 :: dig ∧ (36 : UInt8) ∉ dig ∧
+      ∀ tail, (36 : UInt8) ∉ tail → yescryptR D p (s.take k ++ 36 :: tail) n = some (s.take k ++ 36 :: dig) := by
+  unfold yescryptR at h
+  split at h; · cases h
+  rename_i Q hQ
+  split at h; · cases h
+  rename_i hd hD
+  dsimp only at h
+  split at h; · cases h
+  rename_i hfit
+  simp only [Option.some.injEq] at h
+  unfold parseYescrypt at hQ
+  split at hQ; · cases hQ
+  rename_i P pl hP
+  obtain ⟨hpl3, hpll, hloc⟩ := yParams_local hP
+  have e36 := encode64_no36 hd
+  refine ⟨Q.prefixlen + Q.saltstrlen, encode64 hd, ?_, ?_, ?_, e36, ?_⟩
+  · obtain ⟨a, b, _⟩ := yFinish_refeed hQ ⟨by omega, hpll⟩ [] (by simp); omega
+  · obtain ⟨a, b, _⟩ := yFinish_refeed hQ ⟨by omega, hpll⟩ [] (by simp); omega
+  · rw [← h]; simp
+  · intro tail ht
+    obtain ⟨a, b, c⟩ := yFinish_refeed hQ ⟨by omega, hpll⟩ tail ht
+    rw [a]
+    unfold yescryptR parseYescrypt
+    have hag : ∀ i, i < pl → cat (s.take (pl + Q.saltstrlen) ++ 36 :: tail) i = cat s i :=
+      fun i hi => cat_take_append s _ (pl + Q.saltstrlen) i (by omega) b
+    rw [hloc _ hag]
+    dsimp only
+    rw [c]
+    simp only [hD]
+    have htake : (s.take (pl + Q.saltstrlen) ++ 36 :: tail).take (Q.prefixlen + Q.saltstrlen) = s.take (pl + Q.saltstrlen) := by
+      rw [a]; exact List.take_left' (by simp; omega)
+    rw [htake]
+    have hlen2 : ¬ (s.take (pl + Q.saltstrlen) ++ 36 :: encode64 hd).length ≥ n := by
+      rw [a] at hfit; simpa using hfit
+    simp only [List.append_assoc, List.singleton_append, if_neg hlen2]
+
 end Xc
